@@ -206,10 +206,12 @@ OFFSETS = [0, 0, 2, 2, 4, 7, 7, 10, 20, 35, 35, 60]
 
 class Ev:
     """one price event: `x X` is worth `y Y` on `date`; kind says how it is written down."""
-    __slots__ = ("kind", "date", "x", "X", "y", "Y", "extra")
+    __slots__ = ("kind", "date", "x", "X", "y", "Y", "extra", "eff")
 
-    def __init__(self, kind, date, x, X, y, Y, extra=None):
+    def __init__(self, kind, date, x, X, y, Y, extra=None, eff=None):
         self.kind, self.date, self.x, self.X, self.y, self.Y, self.extra = kind, date, x, X, y, Y, extra
+        # effective date written in the header (`date=eff`): prices are dated by the transaction date, never by this one
+        self.eff = eff
 
     @property
     def source(self):
@@ -256,6 +258,8 @@ def gen_events(rng, ncomm, nev, rates=RATES, p_db=0.35):
             evs.append(Ev(kind, date, q, X, q * rng.choice(rates), Y, extra=rng.choice([1, -1])))
         elif kind == "zero_total":
             evs.append(Ev(kind, date, F(0), X, rng.choice(QTYS), Y))
+        if rng.random() < 0.3:
+            evs[-1].eff = date + datetime.timedelta(days=rng.choice([-20, -6, -3, -1, 1, 3, 6, 20]))
     return mentioned(evs), evs
 
 
@@ -279,7 +283,7 @@ def render(evs, rng=None):
             db.append("P %s %s %s %s\n" % (d, e.X, dec_str(e.y), e.Y))
             pdb.append("(P %s %s %s %s)" % (sx_date(e.date), enc(e.X), dec_triple(e.y), enc(e.Y)))
             continue
-        head = "%s event %d\n" % (d, i)
+        head = "%s%s event %d\n" % (d, "=" + e.eff.strftime("%Y/%m/%d") if e.eff else "", i)
         if e.kind in ("cost_rate", "neg_rate"):
             q = e.extra
             body = "    Assets:X    %s %s @ %s %s\n    Assets:Y    %s %s\n" % (dec_str(q), e.X, dec_str(e.y), e.Y, dec_str(-q * e.y), e.Y)
@@ -314,6 +318,8 @@ def query_dates(evs):
     for e in evs:
         for k in (-1, 0, 1):
             ds.add(e.date + datetime.timedelta(days=k))
+            if getattr(e, "eff", None):
+                ds.add(e.eff + datetime.timedelta(days=k))
     if ds:
         ds.add(min(ds) - datetime.timedelta(days=30))
         ds.add(max(ds) + datetime.timedelta(days=400))
